@@ -29,10 +29,11 @@ theorem InvG.reslack {sl st} {s t : State} (hI : InvG sl st s)
 structure InvX (dirty : Key → Prop) (s : State) : Prop where
   inv : ∃ sl, InvG sl noStale s
   quiet : s.wakeQ = []
+  calm : Calm s
   clean : ∀ k, ¬ dirty k → 0 < cntR s k → cntL s k = 0
 
 theorem InvB.toX {s : State} (hB : InvB s) : InvX (fun _ => False) s := by
-  refine ⟨⟨noSlack, hB.inv⟩, hB.quiet, ?_⟩
+  refine ⟨⟨noSlack, hB.inv⟩, hB.quiet, hB.calm, ?_⟩
   intro k _ hR
   have := (hB.inv.counts k).2 hR
   have hW : cntW s k = 0 := by unfold cntW; rw [hB.quiet]; rfl
@@ -41,7 +42,7 @@ theorem InvB.toX {s : State} (hB : InvB s) : InvX (fun _ => False) s := by
 /-- All keys are clean again: the invariant between commands. -/
 theorem InvX.toB {dirty} {s : State} (hX : InvX dirty s) (hall : ∀ k, 0 < cntR s k → cntL s k = 0) : InvB s := by
   obtain ⟨sl, hI⟩ := hX.inv
-  refine ⟨hI.congr rfl rfl rfl (fun _ => ⟨rfl, rfl, rfl⟩) ?_, hX.quiet⟩
+  refine ⟨hI.congr rfl rfl rfl (fun _ => ⟨rfl, rfl, rfl⟩) ?_, hX.quiet, hX.calm⟩
   intro k
   have hW : cntW s k = 0 := by unfold cntW; rw [hX.quiet]; rfl
   simp only [hW, noSlack, Nat.add_zero]
@@ -55,12 +56,16 @@ theorem InvX.congr {dirty dirty' : Key → Prop} {s t : State} (hX : InvX dirty 
       (t.conns c).peerClosed = (s.conns c).peerClosed)
     (hclean : ∀ k, ¬ dirty' k → 0 < cntR t k → cntL t k = 0) : InvX dirty' t := by
   obtain ⟨sl, hI⟩ := hX.inv
-  exact ⟨⟨_, hI.reslack hr hw hl hc hX.quiet⟩, by rw [hw]; exact hX.quiet, hclean⟩
+  refine ⟨⟨_, hI.reslack hr hw hl hc hX.quiet⟩, by rw [hw]; exact hX.quiet, ?_, hclean⟩
+  intro c hb
+  rw [(hc c).1] at hb
+  rw [(hc c).2.2]
+  exact hX.calm c hb
 
 theorem InvX_emit {dirty} {s : State} {c : Conn} (hX : InvX dirty s) (h : (s.conns c).peerClosed = false) (r : Reply) :
     InvX dirty (emit s c r) := by
   obtain ⟨sl, hI⟩ := hX.inv
-  refine ⟨⟨sl, InvG_emit hI h r⟩, by simp [hX.quiet], ?_⟩
+  refine ⟨⟨sl, InvG_emit hI h r⟩, by simp [hX.quiet], by unfold Calm; rw [emit_conns]; exact hX.calm, ?_⟩
   intro k hk hR
   have : cntR (emit s c r) k = cntR s k := by unfold cntR; simp
   have hL : cntL (emit s c r) k = cntL s k := by unfold cntL; simp
@@ -82,7 +87,7 @@ theorem InvX_dataCore (q : Quirks) (hx : q.execAtomic = true) (hrit : q.refuseBl
     (now : Nat) (c : Conn) {dirty} (s : State) (cmd : Cmd) (hX : InvX dirty s) (hcp : (s.conns c).peerClosed = false) :
     InvX (fun k => dirty k ∨ k ∈ pushKeys [cmd]) (dataCore q now c 0 s cmd) := by
   have hmono : ∀ {t : State}, InvX dirty t → InvX (fun k => dirty k ∨ k ∈ pushKeys [cmd]) t :=
-    fun h => ⟨h.inv, h.quiet, fun k hk => h.clean k (fun hd => hk (.inl hd))⟩
+    fun h => ⟨h.inv, h.quiet, h.calm, fun k hk => h.clean k (fun hd => hk (.inl hd))⟩
   cases cmd with
   | push op k vs =>
     simp only [dataCore]
@@ -127,7 +132,7 @@ theorem InvX_foldl (q : Quirks) (hx : q.execAtomic = true) (hrit : q.refuseBlock
   induction cmds with
   | nil =>
     intro dirty s hX _
-    exact ⟨hX.inv, hX.quiet, fun k hk => hX.clean k (fun hd => hk (.inl hd))⟩
+    exact ⟨hX.inv, hX.quiet, hX.calm, fun k hk => hX.clean k (fun hd => hk (.inl hd))⟩
   | cons cmd r ih =>
     intro dirty s hX hcp
     simp only [List.foldl_cons]
@@ -137,7 +142,7 @@ theorem InvX_foldl (q : Quirks) (hx : q.execAtomic = true) (hrit : q.refuseBlock
     have hcp' : ((dataCore q now c 0 s cmd).conns c).peerClosed = false := by
       rw [(life_dataCore q now c 0 s cmd c).2]; exact hcp
     have h2 := ih _ h1 hcp'
-    refine ⟨h2.inv, h2.quiet, ?_⟩
+    refine ⟨h2.inv, h2.quiet, h2.calm, ?_⟩
     intro k hk
     apply h2.clean k
     intro hk'
@@ -186,6 +191,8 @@ theorem cnt_wakeOne_le (q : Quirks) (s : State) (k' : Key) :
   · next w rest hw =>
     simp only []
     split
+    · exact ⟨by rw [cntL_notify]; exact Nat.le_refl _, cntR_notify_le w.key k' { s with wakeQ := rest }⟩
+    split
     · exact ⟨Nat.le_refl _, Nat.le_refl _⟩
     · next e st' hpe =>
       obtain ⟨a, b, h1, h2, _⟩ := popElem_some hpe
@@ -203,8 +210,8 @@ theorem cnt_wakeOne_le (q : Quirks) (s : State) (k' : Key) :
 
 /-- One round of `serve_key`. -/
 theorem serveRound (q : Quirks) (huas : q.unregisterAllOnServe = true) (k : Key) {sl} (s : State)
-    (hI : InvG sl noStale s) (hq : s.wakeQ = []) (hR : 0 < cntR s k) (hL : 0 < cntL s k) :
-    InvG (decAt sl k) noStale (wakeOne q (notify k s)) ∧ (wakeOne q (notify k s)).wakeQ = [] ∧
+    (hI : InvG sl noStale s) (hq : s.wakeQ = []) (hcalm : Calm s) (hR : 0 < cntR s k) (hL : 0 < cntL s k) :
+    InvG (decAt sl k) noStale (wakeOne q (notify k s)) ∧ (wakeOne q (notify k s)).wakeQ = [] ∧ Calm (wakeOne q (notify k s)) ∧
       (∀ k', cntL (wakeOne q (notify k s)) k' ≤ cntL s k' ∧ cntR (wakeOne q (notify k s)) k' ≤ cntR s k') ∧
       cntR (wakeOne q (notify k s)) k < cntR s k := by
   have hpos : 0 < sl k := by
@@ -212,8 +219,9 @@ theorem serveRound (q : Quirks) (huas : q.unregisterAllOnServe = true) (k : Key)
     have hW : cntW s k = 0 := by unfold cntW; rw [hq]; rfl
     omega
   obtain ⟨h1, _, h3⟩ := InvG_notify_sl k hI hpos (by rw [hq]; intro w hw; cases hw)
-  refine ⟨InvG_wakeOne q huas _ h1, ?_, ?_, ?_⟩
-  · rw [wakeOne_wakeQ]
+  have hcalm' : Calm (notify k s) := by unfold Calm; rw [notify_conns]; exact hcalm
+  refine ⟨InvG_wakeOne q huas _ h1 hcalm', ?_, Calm_wakeOne q _ hcalm', ?_, ?_⟩
+  · rw [wakeOne_wakeQ q _ (fun w rest hw => h1.target_ok hw)]
     rw [hq] at h3
     simp only [List.length_nil, Nat.zero_add] at h3
     cases hwq : (notify k s).wakeQ with
@@ -230,17 +238,17 @@ theorem serveRound (q : Quirks) (huas : q.unregisterAllOnServe = true) (k : Key)
   · exact Nat.lt_of_le_of_lt (cnt_wakeOne_le q (notify k s) k).2 (cntR_notify_lt k s hR)
 
 theorem serveKey_spec (q : Quirks) (huas : q.unregisterAllOnServe = true) (k : Key) :
-    ∀ (n : Nat) (s : State), (∃ sl, InvG sl noStale s) → s.wakeQ = [] → cntR s k ≤ n →
-      (∃ sl, InvG sl noStale (serveKey q k n s)) ∧ (serveKey q k n s).wakeQ = [] ∧
+    ∀ (n : Nat) (s : State), (∃ sl, InvG sl noStale s) → s.wakeQ = [] → Calm s → cntR s k ≤ n →
+      (∃ sl, InvG sl noStale (serveKey q k n s)) ∧ (serveKey q k n s).wakeQ = [] ∧ Calm (serveKey q k n s) ∧
       (∀ k', cntL (serveKey q k n s) k' ≤ cntL s k' ∧ cntR (serveKey q k n s) k' ≤ cntR s k') ∧
       (cntR (serveKey q k n s) k = 0 ∨ cntL (serveKey q k n s) k = 0) := by
   intro n
   induction n with
   | zero =>
-    intro s hI hq hn
-    exact ⟨hI, hq, fun _ => ⟨Nat.le_refl _, Nat.le_refl _⟩, .inl (by simp only [serveKey]; omega)⟩
+    intro s hI hq hc hn
+    exact ⟨hI, hq, hc, fun _ => ⟨Nat.le_refl _, Nat.le_refl _⟩, .inl (by simp only [serveKey]; omega)⟩
   | succ n ih =>
-    intro s hI hq hn
+    intro s hI hq hcalm hn
     simp only [serveKey]
     split
     · next hc =>
@@ -248,13 +256,13 @@ theorem serveKey_spec (q : Quirks) (huas : q.unregisterAllOnServe = true) (k : K
       have hR : 0 < cntR s k := (any_keyIs_iff_pos k s.registry).mp hc.1
       have hL : 0 < cntL s k := (any_keyIs_iff_pos k s.store).mp hc.2
       obtain ⟨sl, hI⟩ := hI
-      obtain ⟨g1, g2, g3, g4⟩ := serveRound q huas k s hI hq hR hL
-      obtain ⟨f1, f2, f3, f4⟩ := ih _ ⟨_, g1⟩ g2 (by omega)
-      refine ⟨f1, f2, ?_, f4⟩
+      obtain ⟨g1, g2, gc, g3, g4⟩ := serveRound q huas k s hI hq hcalm hR hL
+      obtain ⟨f1, f2, fc, f3, f4⟩ := ih _ ⟨_, g1⟩ g2 gc (by omega)
+      refine ⟨f1, f2, fc, ?_, f4⟩
       intro k'
       exact ⟨Nat.le_trans (f3 k').1 (g3 k').1, Nat.le_trans (f3 k').2 (g3 k').2⟩
     · next hc =>
-      refine ⟨hI, hq, fun _ => ⟨Nat.le_refl _, Nat.le_refl _⟩, ?_⟩
+      refine ⟨hI, hq, hcalm, fun _ => ⟨Nat.le_refl _, Nat.le_refl _⟩, ?_⟩
       simp only [Bool.and_eq_true, not_and] at hc
       by_cases hR : 0 < cntR s k
       · right
@@ -271,13 +279,13 @@ theorem serveKeys_spec (q : Quirks) (huas : q.unregisterAllOnServe = true) (ks :
   induction ks with
   | nil =>
     intro s dirty hX
-    exact ⟨hX.inv, hX.quiet, fun k hk => hX.clean k (fun hd => hk ⟨hd, by simp⟩)⟩
+    exact ⟨hX.inv, hX.quiet, hX.calm, fun k hk => hX.clean k (fun hd => hk ⟨hd, by simp⟩)⟩
   | cons k r ih =>
     intro s dirty hX
     simp only [List.foldl_cons]
-    obtain ⟨g1, g2, g3, g4⟩ := serveKey_spec q huas k s.registry.length s hX.inv hX.quiet List.countP_le_length
+    obtain ⟨g1, g2, gc, g3, g4⟩ := serveKey_spec q huas k s.registry.length s hX.inv hX.quiet hX.calm List.countP_le_length
     have hX1 : InvX (fun k' => dirty k' ∧ k' ≠ k) (serveKey q k s.registry.length s) := by
-      refine ⟨g1, g2, ?_⟩
+      refine ⟨g1, g2, gc, ?_⟩
       intro k' hk' hR
       by_cases hkk : k' = k
       · subst hkk
@@ -290,7 +298,7 @@ theorem serveKeys_spec (q : Quirks) (huas : q.unregisterAllOnServe = true) (ks :
         have := (g3 k').1
         omega
     have h2 := ih _ _ hX1
-    refine ⟨h2.inv, h2.quiet, ?_⟩
+    refine ⟨h2.inv, h2.quiet, h2.calm, ?_⟩
     intro k' hk'
     apply h2.clean k'
     intro ⟨⟨hd, hne⟩, hnr⟩
